@@ -52,6 +52,25 @@ def _traversal(ctx, se, dparam=1):
                 if len(steps) == 1 and steps[0][0] == "upd" and steps[0][1] == phi_data and steps[0][2][0] == "i" and strip(steps[0][2][1]) == i_t:
                     writes = [(k, v) for k, v in se.assigns.items() if v[0][0] == "index" and strip(v[0][2]) == i_t and v[0][1] == data_root]
                     return {"mode": "index", "head": head, "loop": loop, "in_term": ("index", strip(phi_data), i_t), "out_terms": [steps[0][3]], "writes": writes, "what": "index loop"}
+        if src is not None and util.is_call(src, "std::iter::Iterator::zip"):
+            # for (b, k) in data.iter_mut().zip(key.iter().cycle().skip(idx0)): byte n meets
+            # key[(idx0 + n) mod len(key)]
+            a_, b_ = strip(src[2][0]), strip(src[2][1])
+            over_data = False
+            if util.is_call(a_, "core::slice::<impl [T]>::iter_mut"):
+                old = se.call_old.get((a_[3][:2], 0))
+                over_data = old == data_root
+            ks = None
+            if util.is_call(b_, "std::iter::Iterator::skip") and util.is_call(strip(b_[2][0]), "std::iter::Iterator::cycle"):
+                it = strip(strip(b_[2][0])[2][0])
+                if util.is_call(it, "core::slice::<impl [T]>::iter"):
+                    ks = (strip(it[2][0]), b_[2][1])
+            if over_data and ks is not None:
+                elem = lp["elem"]
+                b_ref = ("field", elem, 0)
+                elem_in = ("deref", b_ref)
+                writes = [(k, v) for k, v in se.assigns.items() if v[0] == elem_in or (v[0][0] == "deref" and strip(v[0][1]) == strip(b_ref))]
+                return {"mode": "zip-keystream", "head": head, "loop": loop, "in_term": strip(elem_in), "out_terms": [w[1][1] for w in writes], "writes": writes, "what": "zip with the cycled key", "key_byte": strip(("deref", ("field", elem, 1))), "key_source": ks[0], "key_skip": ks[1]}
         return None, "data is not traversed by a plain in-order loop over the whole slice (%s)" % lp["resolved"]
     if len(loops) == 0 and len(be) == 1:
         # while let Some((first, tail)) = mem::take(&mut rest).split_first_mut() { ..; rest = tail; }
@@ -136,6 +155,8 @@ def step_rule(ctx, rep, fn, direction, keylen, method_of=None):
         return out
 
     ci, cp = carried(idx_root), carried(prev_root)
+    if tr["mode"] == "zip-keystream" and len(cp) == 1 and not ci:
+        return _step_rule_keystream(ctx, rep, fn, direction, keylen, se, tr, cp[0])
     if len(ci) != 1 or len(cp) != 1:
         rep.violation("step", fn, "state", "index / previous value are not loop-carried state (no update per byte?)", body.loc())
         return
@@ -187,6 +208,75 @@ def step_rule(ctx, rep, fn, direction, keylen, method_of=None):
     idom = cfg.dominators(body)
     be = [e for e in cfg.back_edges(body) if e[1] == head or cfg.dominates(idom, head, e[0])]
     rep.check(bool(be) and all(cfg.dominates(idom, wb, t) for t, h in be), "step", fn, "unconditional", "the step is executed for every byte", "the byte/state update is conditional inside the loop", body.loc(wb))
+
+
+def _step_rule_keystream(ctx, rep, fn, direction, keylen, se, tr, prev):
+    """the key position is not stepped per byte: byte n of the call is combined with
+    key.iter().cycle().skip(idx0) item n = key[(idx0 + n) mod K], and the index is stored once
+    after the loop as (idx0 + len(data)) mod K computed without truncation"""
+    body = se.body
+    head, loop = tr["head"], tr["loop"]
+    idx_root = ("deref", ("param", 3))
+    phi_prev, ins_prev = prev
+    rep.ok("traversal", fn, "in-order-whole-slice", "plain in-order traversal of the whole slice, every element once (%s)" % tr["mode"], body.loc(head))
+    in_term, out_terms, writes = tr["in_term"], tr["out_terms"], tr["writes"]
+    wb = writes[0][0][0] if writes else None
+    back_prev = [v for p, v in ins_prev.items() if p in loop]
+    if len(out_terms) != 1 or len(back_prev) != 1 or wb is None:
+        rep.violation("step", fn, "shape", "per-byte step is not one store to the byte and one previous-value update", body.loc())
+        return
+    # the key stream: the whole key parameter, cycled, skipping exactly the entry index
+    skip_n = arith.norm(tr["key_skip"], {strip(idx_root): "idx0"})
+    ks_ok = tr["key_source"] == ("param", 2) and skip_n == S("idx0")
+    env = {strip(phi_prev): "prev", in_term: "in", tr["key_byte"]: "kb"}
+    out = arith.norm(out_terms[0], env)
+    nprev = arith.norm(back_prev[0], env)
+    if direction == "enc":
+        want_out = wadd(xor(S("in"), S("kb")), S("prev"))
+        want_prev = want_out
+    else:
+        want_out = xor(("wsub", S("in"), S("prev")), S("kb"))
+        want_prev = S("in")
+    rep.check(out == want_out and ks_ok, "step", fn, "output-byte", "out = %s with kb = key[(idx + n) mod %d] (key.iter().cycle().skip(idx))" % (arith.show(out), keylen), "output byte is %s over key stream %s skipped by %s, expected %s over the key cycled from the current index" % (arith.show(out), show(tr["key_source"], maxdepth=2), arith.show(skip_n), arith.show(want_out)), body.loc(writes[0][0][0]))
+    rep.check(nprev == want_prev, "step", fn, "previous-update", "prev' = %s" % arith.show(nprev), "previous-value update is %s, expected %s" % (arith.show(nprev), arith.show(want_prev)), body.loc())
+    eff = se.param_effects()
+    e3 = eff.get(3)
+    # idx' = ((idx0 as usize + data.len()) % K) as u8: widened before the addition, reduced before the truncation
+    from ranges import strip_len
+    env2 = {strip(idx_root): "idx0"}
+    n3 = arith.norm(e3, env2, wide=()) if e3 is not None else ("?", "the index is not written at all")
+
+    def is_len_data(x):
+        return x[0] == "?" and "len" in x[1] and "param', 1" in x[1] or x[0] == "len"
+
+    good_idx = False
+    r3 = util.numnorm(e3) if e3 is not None else ("?",)
+    idx0 = strip(idx_root)
+
+    def widened_idx(x):
+        return x == ("cast", "IntToInt", idx0, "usize") or (util.is_call(x) and x[1].endswith("From<u8> for usize>::from") and strip(x[2][0]) == idx0)
+
+    def len_of_data(x):
+        if x[0] != "len":
+            return False
+        y = strip(x[1])
+        while y[0] == "after":
+            y = strip(y[3])
+        return y == ("param", 1)
+
+    if r3[0] == "cast" and r3[1] == "IntToInt" and r3[3] == "u8" and r3[2][0] == "binop" and r3[2][1] == "Rem" and r3[2][3][:2] == ("int", keylen):
+        add = r3[2][2]
+        if add[0] == "field" and add[2] == 0 and add[1][0] == "binop" and add[1][1] == "AddWithOverflow":
+            add = ("binop", "Add", add[1][2], add[1][3])
+        if add[0] == "binop" and add[1] == "Add":
+            a_, b_ = add[2], add[3]
+            good_idx = (widened_idx(a_) and len_of_data(b_)) or (widened_idx(b_) and len_of_data(a_))
+    rep.check(good_idx, "step", fn, "index-update", "idx' = ((idx as usize + data.len()) %% %d) as u8, stored once after the loop" % keylen, "index update is %s, expected ((idx as usize + len(data)) mod %d) truncated last" % (arith.show(n3)[:160], keylen), body.loc())
+    ok_state = eff.get(4) == phi_prev and len(ins_prev) == 2 and e3 is not None
+    rep.check(ok_state, "state-discipline", fn, "only-the-step-writes", "previous value written by the per-byte step only; index written once from the call's length", "index / previous value are also written elsewhere: idx=%s prev=%s" % (show(eff.get(3), maxdepth=2), show(eff.get(4), maxdepth=2)), body.loc())
+    idom = cfg.dominators(body)
+    be = [e for e in cfg.back_edges(body) if e[1] == head or cfg.dominates(idom, head, e[0])]
+    rep.check(bool(be) and all(cfg.dominates(idom, wb, t_) for t_, h in be), "step", fn, "unconditional", "the step is executed for every byte", "the byte/state update is conditional inside the loop", body.loc(wb))
 
 
 def _step_rule_method(ctx, rep, fn, direction, keylen, se, half):
@@ -317,19 +407,25 @@ def state_census(ctx, rep, half, key_role_ctor, allowed_writers, state_field_cou
     ws = field_writers(fb, half)
     bad = [w for w in ws if w[1] in ("store", "mutborrow") and w[0] not in allowed_writers]
     rep.check(not bad, "state-writers", half, "field-census", "%d write/borrow sites, all in %s" % (len([w for w in ws if w[1] != 'mutborrow-whole']), sorted(allowed_writers)), "cipher state of %s is written outside its raw operation: %s" % (half, [(w[0], w[3]) for w in bad]))
-    aggs = [w for w in ws if w[1] == "aggregate"]
-    bad = [w for w in aggs if w[0] != key_role_ctor]
-    rep.check(bool(aggs) and not bad, "state-writers", half, "constructed-only-in-new", "constructed only in %s" % key_role_ctor, "%s is constructed elsewhere: %s" % (half, [w[0] for w in bad]))
-    # initial state
-    se = ctx.wrap.run(key_role_ctor)
-    good = False
-    desc = "?"
-    if se is not None:
-        r = strip(se.ret)
-        if r[0] == "agg" and r[2] == half:
-            zeros = [o for o in r[4] if o[:2] == ("int", 0)]
-            good = len(zeros) == state_field_count and len(r[4]) == state_field_count + 1
-            desc = show(r, maxdepth=2)
-    rep.check(good, "initial-state", key_role_ctor, "zero", "index = 0, previous value = 0", "initial cipher state is not (index 0, previous 0): %s" % desc)
+    # every construction site (helpers extracted by a refactoring are seen at their call sites)
+    # starts the cipher at index 0, previous value 0
+    aggs = [w for w in ws if w[1] == "aggregate" and w[0] not in getattr(fb, "fresh_paths", ())]
+    site_fns = sorted({w[0] for w in aggs})
+    rep.check(bool(aggs), "state-writers", half, "constructed-only-in-new", "constructed in %s" % site_fns, "%s is never constructed" % half)
+    tys = [fb.ty(f["ty"]) for f in fb.adt_fields(half)]
+    state_ix = [i for i, t in enumerate(tys) if t.k == "int"]
+    bad_sites = []
+    n_seen = 0
+    for fn_ in site_fns:
+        se = ctx.wrap.run(fn_)
+        if se is None:
+            bad_sites.append((fn_, "not analysable"))
+            continue
+        vals = [v for (bi, si), (loc, v) in se.assigns.items() if v[0] == "agg" and v[1] == "adt" and v[2] == half]
+        for v in vals:
+            n_seen += 1
+            if not (len(state_ix) == state_field_count and len(v[4]) == state_field_count + 1 and all(strip(v[4][i])[:2] == ("int", 0) for i in state_ix)):
+                bad_sites.append((fn_, show(v, maxdepth=2)))
+    rep.check(n_seen > 0 and not bad_sites, "initial-state", key_role_ctor, "zero", "index = 0, previous value = 0 at every construction site %s" % site_fns, "initial cipher state is not (index 0, previous 0): %s" % bad_sites[:2])
     # derived PartialEq covers all fields (observation point of the property)
     rep.check("std::cmp::PartialEq" in fb.derived_traits(half), "initial-state", half, "derived-eq", "== on the half is derived (all fields)", "== on %s is hand-written" % half)
